@@ -27,12 +27,14 @@ Proof. exact (rec_key_inj low_mask_is_partition_mask low_part_fits_two_bytes). Q
 (* After ANY sequence of valid events (any length, any interleaving of creates, updates,
    deactivations and reactivations over any number of workspaces, any field lists), reading ANY
    record returns exactly the per-field fold of the log: it exists iff some event created it; type,
-   parent and container are those of the create; the activation flag is that of the newest event
-   naming the record; every field has the value given by the newest event naming that field,
+   parent and container are those of the create; the activation flag is the one assigned by the newest event
+   that assigns it; every field has the value given by the newest event naming that field,
    emptied fields (and empty strings) are absent.
    "valid" = accepted by BuildRawEvent, ids < 2^64, created ids new in their workspace (C04), and
    every update can be built over the row it meets in the store (so that Apply succeeds); the
-   content of the record object handed to ICUD.Update is arbitrary (stale, foreign, empty). *)
+   field content of the record object handed to ICUD.Update is arbitrary (stale, foreign, empty);
+   its activity flag must be the stored one when the update does not assign sys.IsActive - only
+   as long as F-C03-2 is open (see [activity_ok] below). *)
 Theorem apply_fold_spec : forall h ws id,
   valid_history [] h = true -> ws < bound64 -> id < bound64 ->
   lookup (run [] h) ws id = spec_rec (touches (rev h) ws id) id.
@@ -97,8 +99,8 @@ Proof. exact (satisfies_model_trace_proved low_mask_is_partition_mask low_part_f
 Definition stale_witness : list event :=
   let d0 := mkRec 204798 1 0 0 true [Some (FNum 1); None] in
   [ mkEvent 1 [mkCreate false 204798 1 0 0 true [SetTo (FNum 1); Keep]] [];
-    mkEvent 1 [] [mkUpdate 204798 d0 0 0 true [Keep; SetTo (FStr [120])]];
-    mkEvent 1 [] [mkUpdate 204798 d0 0 0 true [SetTo (FNum 7); Keep]] ].
+    mkEvent 1 [] [mkUpdate 204798 d0 0 0 (Some true) [Keep; SetTo (FStr [120])]];
+    mkEvent 1 [] [mkUpdate 204798 d0 0 0 None [SetTo (FNum 7); Keep]] ].
 
 Theorem apply_fold_spec_with_old_apply_refuted :
   exists h ws id, valid_history [] h = true /\ ws < bound64 /\ id < bound64 /\
@@ -110,6 +112,36 @@ Example stale_witness_now_folds :
   lookup (run [] stale_witness) 1 204798 = Some (mkRec 204798 1 0 0 true [Some (FNum 7); Some (FStr [120])]).
 Proof. vm_compute. split; reflexivity. Qed.
 
+(* FINDING F-C03-2 (open).  An update that does NOT assign sys.IsActive still carries an activity
+   value: newUpdateRec copies it from the record object handed to ICUD.Update, it is logged with the
+   row, and updateRecType.build sets the record's flag to it whenever the VALUES differ.  Built from
+   an older object, an update that names only `name` reactivates a record deactivated since (or,
+   naming nothing, deactivates an active one), while the logged row says "activity not assigned"
+   (IsActivated = IsDeactivated = false).  The full statement - [apply_fold_spec] with
+   [valid_history_but_activity] in place of [valid_history] - is refuted by the faithful model as
+   long as the code has this shape; [apply_fold_spec] is the partial theorem, its extra hypothesis
+   [activity_ok] (inside [valid_event]) is exactly what excludes the witness and becomes vacuous
+   (computes to true) once validEvent refreshes the unassigned activity from the stored record
+   (findings/C03/F-C03-2.diff, translator flag rec_update_activity_from_store). *)
+Definition activity_witness : list event :=
+  let d0 := mkRec 200001 1 0 0 true [Some (FStr [97])] in
+  [ mkEvent 1 [mkCreate false 200001 1 0 0 true [SetTo (FStr [97])]] [];
+    mkEvent 1 [] [mkUpdate 200001 d0 0 0 (Some false) [Keep]];
+    mkEvent 1 [] [mkUpdate 200001 d0 0 0 None [SetTo (FStr [98])]] ].
+
+Theorem apply_fold_spec_without_activity_hypothesis_refuted :
+  rec_update_activity_from_store = false ->
+  exists h ws id, valid_history_but_activity [] h = true /\ ws < bound64 /\ id < bound64 /\
+    lookup (run [] h) ws id <> spec_rec (touches (rev h) ws id) id.
+Proof.
+  intros H; first [ discriminate H
+                  | exists activity_witness, 1, 200001; vm_compute; repeat split; try reflexivity; discriminate ].
+Qed.
+
+Example activity_witness_excluded :
+  rec_update_activity_from_store = false -> valid_history [] activity_witness = false.
+Proof. intros H; first [ discriminate H | vm_compute; reflexivity ]. Qed.
+
 (* non-vacuity: a concrete history over two workspaces (equal ids in both, ids on both sides of a
    4096 boundary), nested records, a singleton, field set / emptied / zero, deactivate and
    reactivate is valid, and the store computes to the expected rows *)
@@ -120,9 +152,9 @@ Definition demo : list event :=
                mkCreate false 204800 2 204799 1 true [SetTo (FStr []); SetTo (FNum 204799)]] [];
     mkEvent 2 [mkCreate false 204799 4 0 0 true [SetTo (FNum 9)];
                mkCreate true 65536 5 0 0 true [Keep; SetTo (FStr [1; 2])]] [];
-    mkEvent 1 [] [mkUpdate 204799 doc 0 0 false [Keep; SetTo (FNum (-5)); Clear]];
-    mkEvent 1 [] [mkUpdate 204799 doc' 0 0 true [Keep; Keep; SetTo (FStr [98; 99])];
-                  mkUpdate 204800 (mkRec 204800 2 204799 1 true [None; Some (FNum 204799)]) 204799 1 true [SetTo (FStr [120]); Keep]] ].
+    mkEvent 1 [] [mkUpdate 204799 doc 0 0 (Some false) [Keep; SetTo (FNum (-5)); Clear]];
+    mkEvent 1 [] [mkUpdate 204799 doc' 0 0 (Some true) [Keep; Keep; SetTo (FStr [98; 99])];
+                  mkUpdate 204800 (mkRec 204800 2 204799 1 true [None; Some (FNum 204799)]) 204799 1 None [SetTo (FStr [120]); Keep]] ].
 
 Example apply_fold_spec_nonvacuous :
   valid_history [] demo = true
@@ -164,7 +196,7 @@ Example apply_frame_nonvacuous :
 Proof. vm_compute. repeat split; try reflexivity. discriminate. Qed.
 
 Example update_keeps_unnamed_nonvacuous :
-  build_update (mkRec 7 1 0 0 true [Some (FNum 3); Some (FStr [97])]) (mkUpdate 7 (mkRec 7 1 0 0 true []) 0 0 false [Keep; Clear])
+  build_update (mkRec 7 1 0 0 true [Some (FNum 3); Some (FStr [97])]) (mkUpdate 7 (mkRec 7 1 0 0 true []) 0 0 (Some false) [Keep; Clear])
   = Some (mkRec 7 1 0 0 false [Some (FNum 3); None]).
 Proof. vm_compute. reflexivity. Qed.
 
@@ -178,3 +210,4 @@ Print Assumptions apply_frame.
 Print Assumptions update_keeps_unnamed.
 Print Assumptions satisfies_model_trace.
 Print Assumptions apply_fold_spec_with_old_apply_refuted.
+Print Assumptions apply_fold_spec_without_activity_hypothesis_refuted.
